@@ -759,6 +759,7 @@ PROPS = {
         "properties": [
             "C05",
             "C05_patterns",
+            "C05_clauses",
             "C05_prepared",
             "C05_mysql"
         ],
